@@ -46,6 +46,48 @@ class Monitor:
         self.live.pop(addr, None)
 
 
+def check_structure(a, monitor):
+    """Independent (model-free) consistency of the three sites _array / _freed / top on the implementation object,
+    and of the used blocks against the monitor's live set.  Returns a text or None."""
+    off, size = a.addr_offset, a.size
+    if len(a._array) != size:
+        return '_array has length %d, size is %d' % (len(a._array), size)
+    cur, blocks = monitor.lo, []
+    for i, b in enumerate(a._array):
+        if b is None:
+            continue
+        if b.start != off + i:
+            return 'block %r stored at index %d (address %d)' % (b, i, off + i)
+        if b.start != cur:
+            return 'gap or overlap in _array: block %r starts at %d, previous block ended at %d' % (b, b.start, cur)
+        if b.size < 1:
+            return 'block %r has size %d' % (b, b.size)
+        cur = b.start + b.size
+        blocks.append(b)
+    if cur != monitor.hi:
+        return 'blocks end at %d, the partition at %d' % (cur, monitor.hi)
+    if blocks and a.top != blocks[-1].start:
+        return 'top is %d but the last block starts at %d' % (a.top, blocks[-1].start)
+    for x, y in zip(blocks, blocks[1:]):
+        if not x.used and not y.used:
+            return 'adjacent free blocks %r %r (not coalesced)' % (x, y)
+    infreed = {}
+    for k, s in a._freed.items():
+        if not s:
+            return 'empty size class %r kept in _freed' % (k,)
+        for b in s:
+            if b.used or b.size != k or not (0 <= b.start - off < size) or a._array[b.start - off] is not b:
+                return '_freed[%r] holds %r which is not a free block of _array of that size' % (k, b)
+            infreed[b.start] = True
+    for b in blocks:
+        if not b.used and b.start < a.top and b.start not in infreed:
+            return 'free block %r below top is missing from _freed' % (b,)
+    used = sorted((b.start, b.size) for b in blocks if b.used)
+    if used != sorted(monitor.live.items()):
+        return 'used blocks %s differ from the ranges handed out and not freed %s' % (used, sorted(monitor.live.items()))
+    return None
+
+
 def check_history(make_alloc, size, pos, off, ops, set_r=None):
     """Run ops on a fresh implementation allocator; return (index of failing op, text) or None."""
     a = make_alloc(size, pos, off)
@@ -64,8 +106,14 @@ def check_history(make_alloc, size, pos, off, ops, set_r=None):
             else:
                 a.free(op[1])
                 m.on_free(op[1])
-        except Exception as e:   # an in-partition request must not raise
+        except Exception as e:   # no request of the alphabet may raise
             return k, '%s raised %s: %s' % (op, type(e).__name__, e)
+        try:
+            bad = check_structure(a, m)
+        except Exception as e:
+            bad = 'structure check raised %s: %s' % (type(e).__name__, e)
+        if bad:
+            return k, 'after %s: %s' % (op, bad)
     return None
 
 
